@@ -64,7 +64,11 @@ Ltac ok_walk leaf :=
   | |- true = true => reflexivity
   | |- andb _ _ = true => apply andb_true_intro; split; ok_walk leaf
   | |- (let x := ?v in @?F x) = true =>
-      let v' := eval cbn [fst snd] in v in
+      let v' := lazymatch v with
+                | fst _ => eval cbv beta iota delta [fst snd] in v
+                | snd _ => eval cbv beta iota delta [fst snd] in v
+                | _ => v
+                end in
       let G := eval cbv beta in (F v') in change (G = true); ok_walk leaf
   | |- (if ?c then ?a else ?b) = true =>
       let c' := eval cbn [andb negb orb] in c in
